@@ -128,6 +128,45 @@ def part_parser(ctx, i):
             break
     ctx.case('P:' + sig(texts),
              nontrivial=True in verdicts and False in verdicts)
+    # the same texts through one ScriptJob (load_string + execute)
+    diffrun.setup(pop)
+    used_job = ScriptJob()
+    for k, text in enumerate(texts):
+        want_prog = compile_result(Parser(), text)[2]
+        try:
+            used_job.load_string(text)
+        except Exception as ex:
+            ctx.violation('job-reload:raised', '{!r} | {!r}'.format(
+                ex, text[:200]), {'part': 'job-reload', 'texts': texts})
+            break
+        have = None if used_job.program is None else \
+            vmmon.fingerprint(used_job.program)
+        if (have is None) != (want_prog is None) or (
+                have is not None and have != want_prog):
+            prev = 'accepted' if (k and verdicts[k - 1] is True) else 'rejected'
+            ctx.violation(
+                'job-reload:program:after-' + prev,
+                'load_string #{} on a used job leaves {} where a fresh job has '
+                '{} | this: {!r}'.format(
+                    k, 'no program' if have is None else
+                    'a program of {} instructions'.format(len(have)),
+                    'no program' if want_prog is None else
+                    'a program of {} instructions'.format(len(want_prog)),
+                    text[:200]), {'part': 'job-reload', 'texts': texts})
+            break
+        if want_prog is None:
+            # a rejected text must not leave anything that runs
+            env.reset_monitors()
+            used_job.execute()
+            evs = [e for e in simnet.LOG if e[0] in ('dev', 'lan', 'out')
+                   and e[1] != 'flush']
+            if evs:
+                ctx.violation('job-reload:rejected-text-runs',
+                              'after a rejected load_string execute() produced '
+                              '{} | {!r}'.format(evs[:2], text[:200]),
+                              {'part': 'job-reload', 'texts': texts})
+                break
+        ctx.count('job_reloads')
 
 
 def reset_devices(pop):
